@@ -9,6 +9,10 @@ LEAN_MODULES = ["Properties.C05"]
 THEOREMS = ["EngineModel.Properties.C05." + t for t in [
     "C05_v2_track_safe", "C05_v2_beat_safe", "C05_v2_ovw_safe", "C05_v2_cues_safe", "C05_v2_loops_safe",
     "C05_v2_throw_class",
+    "C05_v1_track_safe", "C05_v1_beat_safe", "C05_v1_ovw_safe",
+    "C05_v1_hires_safe", "C05_v1_cues_safe", "C05_v1_loops_safe",
+    "C05_v1_throw_class",
+    "C05_decode_steps", "C05_decode_steps_v1_beat_abs", "C05_decode_steps_faithful", "C05_decode_steps_shape_v2_loops",
     "C05_uncompress_total", "C05_uncompress_no_ub", "C05_uncompress_old_end_counterexample", "C05_unz_safe",
 ]]
 ASSUMPTIONS = [
